@@ -484,6 +484,36 @@ pub fn do_obs_propose(w: &mut World, k: usize, what: u64, q: usize) -> VResult<b
         }
         w.prepare_rejoin(q, g)?;
         let Some(kp) = w.gen_key_package(q)? else { return Ok(false) };
+        // what an observer (a server) does with an uploaded key package: ExternalClient::validate_key_package takes
+        // the genuine one and refuses a copy with a flipped bit in the signed part
+        {
+            let client = make_client(w, w.ext.observers[k].jitter, w.ext.observers[k].app_cache);
+            let now = w.now();
+            let r = guarded(&prop, "observer.validate_key_package", || client.validate_key_package(MlsMessage::from_bytes(&kp)?, Some(now)))?;
+            w.stats.check("observer-validates-key-packages");
+            if let Err(e) = r {
+                return Err(viol(
+                    w,
+                    "observer-key-package",
+                    format!("genuine-key-package-refused:{}", err_class(&e)),
+                    format!("observer {k}: validate_key_package refuses the fresh key package of P{q}: {e:?}"),
+                ));
+            }
+            let mut bad = kp.clone();
+            let at = 8 + (what as usize >> 1) % bad.len().saturating_sub(8).max(1);
+            if at < bad.len() {
+                bad[at] ^= 1 << (what % 8);
+                let r = guarded(&prop, "observer.validate_key_package(flipped)", || client.validate_key_package(MlsMessage::from_bytes(&bad)?, Some(now)))?;
+                if r.is_ok() {
+                    return Err(viol(
+                        w,
+                        "observer-key-package",
+                        "modified-key-package-accepted".into(),
+                        format!("observer {k}: validate_key_package accepts the key package of P{q} with bit {} of byte {at} flipped", what % 8),
+                    ));
+                }
+            }
+        }
         (
             guarded(&prop, "observer.propose_add", || grp.propose_add(MlsMessage::from_bytes(&kp)?, vec![]))?,
             PropSpec::Add { q },
